@@ -299,6 +299,96 @@ def op_loopy_codegen(st, hid):
         return "failed:" + type(e).__name__
 
 
+def op_churn(st, recipe, seed, n=25, with_keys=True):
+    """time-stepper style: build, compare, key and DISCARD transient graphs
+    over and over, so that object addresses are reused by new nodes while
+    whatever state earlier comparisons/keyings left behind (id()-keyed caches,
+    memo tables) is still around.  Every verdict is checked against the
+    reflective walker."""
+    rng = random.Random(f"churn:{seed}")
+    viol = []
+    cnt = {"churn_rounds": 0, "churn_comparisons": 0}
+    kb = st.key_builder()
+    for _ in range(n):
+        try:
+            _v1, g1 = srecipe.build(recipe, None)
+            _v2, g2 = srecipe.build(recipe, None)
+            ss = mutate.sites(g1)
+            m = None
+            for _try in range(4):
+                node, f = ss[rng.randrange(len(ss))]
+                try:
+                    cand = mutate.mutate_site(g1, node, f, rng, st.mut_counter)
+                except mutate.Ineffective:
+                    continue
+                if _usable(cand):
+                    m = cand
+                    break
+        except Exception:  # noqa: BLE001
+            continue
+        cnt["churn_rounds"] += 1
+        pairs = [("rebuild", g1, g2)]
+        if m is not None:
+            pairs.append(("mutant", g1, m))
+            pairs.append(("mutant-rev", m, g2))
+        # ... and Array-level comparisons (Array.__eq__ is a different entry
+        # point from the named-results __eq__): the named outputs and a few
+        # interior nodes, position by position
+        import pytato as pt
+        for label, x, y in list(pairs):
+            if isinstance(x, pt.DictOfNamedArrays) and \
+                    isinstance(y, pt.DictOfNamedArrays):
+                for name in sorted(set(x._data) & set(y._data)):
+                    pairs.append((label + "-output", x._data[name],
+                                  y._data[name]))
+        n1 = [v for v in walker.pytato_nodes(g1) if isinstance(v, pt.Array)]
+        n2 = [v for v in walker.pytato_nodes(g2) if isinstance(v, pt.Array)]
+        for _k in range(min(4, len(n1), len(n2))):
+            i1, i2 = rng.randrange(len(n1)), rng.randrange(len(n2))
+            pairs.append(("interior", n1[i1], n2[i2]))
+            pairs.append(("interior", n1[i1], n2[min(i1, len(n2) - 1)]))
+        for label, x, y in pairs:
+            try:
+                e = bool(x == y)
+                want = walker.canon_key(x, "identity") == \
+                    walker.canon_key(y, "identity")
+            except Exception:  # noqa: BLE001
+                continue
+            cnt["churn_comparisons"] += 1
+            if e and not want:
+                viol.append({"class": "equal-despite-difference:transient-"
+                             + label, "handles": [], "detail":
+                             "comparison of short-lived graphs (address reuse)"})
+            elif want and not e:
+                viol.append({"class": "same-structure-but-unequal:transient-"
+                             + label, "handles": [], "detail":
+                             "comparison of short-lived graphs (address reuse)"})
+            if e:
+                try:
+                    if hash(x) != hash(y):
+                        viol.append({"class": "equal-but-hash-differs:transient",
+                                     "handles": [], "detail": label})
+                except TypeError:
+                    pass
+            if with_keys:
+                try:
+                    kx, ky = kb(x), kb(y)
+                    cs = walker.canon_key(x, "content", scalar_types=True) == \
+                        walker.canon_key(y, "content", scalar_types=True)
+                    cl = walker.canon_key(x, "content") == \
+                        walker.canon_key(y, "content")
+                    if cs and kx != ky:
+                        viol.append({"class": "same-structure-but-key-differs",
+                                     "handles": [], "detail": "transient " + label})
+                    if not cl and kx == ky:
+                        viol.append({"class": "key-collision:transient-" + label,
+                                     "handles": [], "detail": ""})
+                except Exception:  # noqa: BLE001
+                    pass
+        del g1, g2, m, pairs
+    return {"violations": viol[:6], "counters": cnt}
+
+
 def op_hash(st, hid, deep=False):
     obj = st.h[hid]
     if deep:
@@ -564,6 +654,8 @@ class _ProcComm:
                                              protocol=pickle.HIGHEST_PROTOCOL)))
             elif msg[0] == "coll-result":
                 return None if msg[1] is None else pickle.loads(msg[1])
+            elif msg[0] == "coll-result-list":
+                return [pickle.loads(b) for b in msg[1]]
             elif msg[0] == "abort":
                 raise RuntimeError("run aborted by the orchestrator")
             else:
@@ -578,8 +670,13 @@ class _ProcComm:
     def allreduce(self, sendobj, op=None):
         return self._coll("allreduce", sendobj, 0, op)
 
+    def allgather(self, sendobj):
+        return self._coll("allgather", sendobj, 0)
+
     def barrier(self):
         return self._coll("barrier", None, 0)
+
+    Barrier = barrier
 
 
 def op_rank_run(st, recipe, rank, faults=(), stop_after="tags"):
@@ -706,10 +803,23 @@ class _ProcRequest:
         self._fill(msg[1])
         return True
 
+    wait = Wait
+
     @staticmethod
-    def Waitsome(requests, statuses=None):
+    def Waitall(requests, statuses=None):
+        for r in requests:
+            r.Wait()
+        return True
+
+    @staticmethod
+    def Waitany(requests, status=None):
+        res = _ProcRequest.Waitsome(requests, _only_one=True)
+        return res[0] if res else -32766
+
+    @staticmethod
+    def Waitsome(requests, statuses=None, _only_one=False):
         send, _recv = PIPE
-        send(("waitsome", [r.rid for r in requests]))
+        send(("waitsome", [r.rid for r in requests], _only_one))
         msg = _expect("waitsome-ret")
         idx, data = msg[1], msg[2]
         if idx:
